@@ -3,7 +3,8 @@
    Layers: F = documented format (Format.v), S = abstract spec (Spec/SpecStep), I = model of the Rust (World.step'). *)
 From Coq Require Import List NArith Bool Arith Sorted.
 From Coq Require Import Strings.Byte.
-Require Import BS.Bytes BS.Common BS.Api BS.Layout BS.Format BS.FormatFacts.
+Require Import BS.Bytes BS.Common BS.Api BS.Layout BS.Format BS.FormatFacts BS.Spec BS.SpecStep.
+Require Import BS.FS BS.FSFacts BS.Meta BS.MetaFacts BS.Header BS.Reader BS.ReaderFacts BS.Index BS.Data BS.DataFacts BS.Seek BS.Series BS.SeriesFacts.
 Import ListNotations.
 
 (* theorems for this property are added as the development grows; until then the property is
